@@ -18,7 +18,7 @@ type C09Case struct {
 
 var c09Auto = AutoCfg{"asktext": {VarName: "VAR_RESULT"}}
 
-func c09Src(c *C09Case) string { return Canon(c.File) }
+func c09Src(c *C09Case) string { return CanonMaybeDense(c.File) }
 
 var c09Chunks = []string{"a", "b", "Hello", " ", "  ", "é", "ß", "日本", "{PLAYER}", "{", "}", "$", `\n`, `\p`, `\l`, `\0`, `\`, "!", "?", ".", ",", "'", "#", "//", "`", "%", "0", "x"}
 
